@@ -170,21 +170,20 @@ Section P.
 
   Lemma lstep_decr : forall r c l, finished l = false -> (mu (lstep r c l) < mu l)%nat.
   Proof.
-    intros r c [ctx p m d tls sk reg] Hf. unfold Concurrent.finished in Hf. unfold mu, Concurrent.lstep. simpl in *.
+    intros r c [ctx p m d tls sk reg] Hf. unfold Concurrent.finished in Hf. cbn [l_prog] in Hf.
     destruct p as [|o p]; [discriminate|].
-    destruct (Nat.min_spec m 5) as [[Hm1 Hm2]|[Hm1 Hm2]]; rewrite Hm2;
-    (destruct sk; [simpl; lia|]);
-    destruct o; simpl; try lia;
-      try (destruct (m <? 4)%nat eqn:E; [apply Nat.ltb_lt in E | apply Nat.ltb_ge in E]; simpl;
-           try rewrite Nat.min_l by lia; try lia);
-      try (destruct (m <? 5)%nat eqn:E; [apply Nat.ltb_lt in E | apply Nat.ltb_ge in E]; simpl;
-           try rewrite Nat.min_l by lia; try lia).
+    unfold mu, Concurrent.lstep. cbn [l_prog l_micro l_skip].
+    destruct sk; [cbn [l_prog l_micro length]; lia|].
+    destruct o; cbn [l_prog l_micro length]; try lia.
+    - destruct (m <? 4)%nat eqn:E; [apply Nat.ltb_lt in E | apply Nat.ltb_ge in E]; cbn [l_prog l_micro length]; lia.
+    - destruct (m <? 4)%nat eqn:E; [apply Nat.ltb_lt in E | apply Nat.ltb_ge in E]; cbn [l_prog l_micro length]; lia.
+    - destruct (m <? 5)%nat eqn:E; [apply Nat.ltb_lt in E | apply Nat.ltb_ge in E]; cbn [l_prog l_micro length]; lia.
   Qed.
 
   Lemma alone_finishes_aux : forall r n l, (mu l <= n)%nat -> finished (iter n (lstep r 0) l) = true.
   Proof.
     induction n; intros l Hm.
-    - simpl. unfold mu in Hm. unfold Concurrent.finished. destruct (l_prog _ _ _ _ _ l); auto. simpl in Hm.
+    - simpl. unfold mu in Hm. unfold Concurrent.finished. destruct (l_prog _ _ _ _ _ l); auto. cbn [length] in Hm.
       pose proof (Nat.le_min_r (l_micro _ _ _ _ _ l) 5). lia.
     - rewrite iter_S. destruct (finished l) eqn:Hf.
       + rewrite finished_fix by auto. rewrite iter_fix; auto. apply finished_fix; auto.
@@ -224,7 +223,8 @@ Section P.
     simpl in *. destruct p as [|o p]; [discriminate|].
     assert (Hm0 : g_mutex _ _ _ _ _ g = None \/ (g_mutex _ _ _ _ _ g = Some t /\ sk = false /\ (o = MEnter \/ o = MExit) /\ (1 <= m <= 3)%nat)).
     { destruct Hs as [Hm | [Hm [l' [Hn' Hcr]]]]; auto. right. rewrite Hn in Hn'. inversion Hn'; subst l'.
-      unfold Concurrent.in_crit, Concurrent.active in Hcr. simpl in Hcr. destruct sk; [discriminate|]. simpl in Hcr.
+      unfold Concurrent.in_crit, Concurrent.active in Hcr. cbn [l_skip l_prog l_micro hd_error] in Hcr.
+      destruct sk; [discriminate|]. cbn [hd_error] in Hcr.
       destruct o; try discriminate; apply andb_true_iff in Hcr; destruct Hcr as [H1 H2];
         apply Nat.leb_le in H1; apply Nat.leb_le in H2; auto. }
     destruct sk.
@@ -236,12 +236,10 @@ Section P.
       destruct m as [|[|[|[|m]]]]; inversion He; subst; simpl;
         try (destruct Hm0 as [Hm | [Hm [_ [_ Hr]]]]; [auto | try lia; right; split; auto; eexists; split; eauto]);
         try (right; split; auto; eexists; split; eauto; fail); auto.
-      destruct Hm0 as [Hm | [Hm [_ [_ Hr]]]]; [auto | lia].
     - (* MExit *)
       destruct m as [|[|[|[|m]]]]; inversion He; subst; simpl;
         try (destruct Hm0 as [Hm | [Hm [_ [_ Hr]]]]; [auto | try lia; right; split; auto; eexists; split; eauto]);
         try (right; split; auto; eexists; split; eauto; fail); auto.
-      destruct Hm0 as [Hm | [Hm [_ [_ Hr]]]]; [auto | lia].
   Qed.
 
   Lemma solo_run : forall t n g l, solo_ok t g -> lclean l -> nth_error (g_locals _ _ _ _ _ g) t = Some l ->
@@ -288,4 +286,542 @@ Section P.
     - destruct g; [discriminate|]. eapply IH; eauto.
     - destruct g; [|discriminate]. apply andb_true_iff in H. destruct H. eapply IH; eauto.
   Qed.
+
+  (* ====================================================================================== Part B *)
+  Local Opaque Z.of_nat.
+
+  Definition linv (mx : nat) (l : local) : Prop :=
+    (l_depth _ _ _ _ _ l <= mx)%nat /\
+    if l_skip _ _ _ _ _ l
+    then l_micro _ _ _ _ _ l = 0%nat /\ exists d, bal mx d (Some (l_depth _ _ _ _ _ l)) (l_prog _ _ _ _ _ l) = true
+    else (exists g, bal mx (l_depth _ _ _ _ _ l) g (l_prog _ _ _ _ _ l) = true) /\
+         (l_micro _ _ _ _ _ l = 0%nat \/
+          ((hd_error (l_prog _ _ _ _ _ l) = Some MEnter \/ hd_error (l_prog _ _ _ _ _ l) = Some MExit) /\
+           (l_micro _ _ _ _ _ l <= 4)%nat)).
+
+  Lemma linv_step : forall mx r c l, linv mx l -> linv mx (lstep r c l).
+  Proof.
+    intros mx r c [ctx p m d tls sk reg] [Hd H]. unfold linv, Concurrent.lstep in *. cbn [l_depth l_skip l_micro l_prog] in *.
+    destruct p as [|o p]; [split; auto|].
+    destruct sk.
+    - destruct H as [Hm [d' Hb]]. cbn [bal Concurrent.bal] in Hb.
+      destruct o; cbn [l_depth l_skip l_micro l_prog]; try discriminate; (split; [exact Hd|]);
+        try (split; [reflexivity|]; eauto; fail).
+      + apply andb_true_iff in Hb. destruct Hb as [_ Hb]. split; eauto.
+      + destruct d'; [discriminate|]. split; eauto.
+      + apply andb_true_iff in Hb. destruct Hb as [He Hb]. apply Nat.eqb_eq in He. subst d'. split; eauto.
+    - destruct H as [[g Hb] Hm]. cbn [bal Concurrent.bal] in Hb.
+      destruct o; try discriminate.
+      + (* MEnter *) apply andb_true_iff in Hb. destruct Hb as [Hle Hb]. apply Nat.leb_le in Hle.
+        destruct (m <? 4)%nat eqn:E; [apply Nat.ltb_lt in E|]; cbn [l_depth l_skip l_micro l_prog hd_error].
+        * split; [exact Hd|]. split; [exists g; cbn [Concurrent.bal]; apply andb_true_iff; split; auto; apply Nat.leb_le; auto|].
+          right. split; auto; lia.
+        * split; [exact Hle|]. split; eauto.
+      + (* MExit *) destruct d as [|d']; [discriminate|].
+        destruct (m <? 4)%nat eqn:E; [apply Nat.ltb_lt in E|]; cbn [l_depth l_skip l_micro l_prog hd_error].
+        * split; [exact Hd|]. split; [exists g; exact Hb|]. right. split; auto; lia.
+        * split; [simpl; lia|]. split; eauto.
+      + cbn [l_depth l_skip l_micro l_prog]. split; [exact Hd|]. split; eauto.
+      + cbn [l_depth l_skip l_micro l_prog]. split; [exact Hd|]. split; eauto.
+      + cbn [l_depth l_skip l_micro l_prog]. split; [exact Hd|]. split; eauto.
+      + cbn [l_depth l_skip l_micro l_prog]. split; [exact Hd|]. split; eauto.
+      + (* MGuard *) destruct g; [discriminate|]. cbn [l_depth l_skip l_micro l_prog l_ctx]. split; [exact Hd|].
+        destruct (negb (q r ctx)); cbv iota; split; eauto.
+      + (* MEndGuard *) destruct g as [d0|]; [|discriminate]. apply andb_true_iff in Hb. destruct Hb as [He Hb].
+        cbn [l_depth l_skip l_micro l_prog]. split; [exact Hd|]. split; eauto.
+  Qed.
+
+  Lemma contrib_pop : forall ctx p d tls sk reg, contrib (mkLocal _ _ _ _ _ ctx p 0 d tls sk reg) = Z.of_nat d.
+  Proof.
+    intros. unfold Concurrent.contrib. cbn [l_depth l_skip l_micro l_prog]. destruct sk; [lia|].
+    destruct p as [|[] p]; cbn; lia.
+  Qed.
+
+  Lemma in_crit_pop : forall ctx p d tls sk reg, in_crit (mkLocal _ _ _ _ _ ctx p 0 d tls sk reg) = false.
+  Proof.
+    intros. unfold Concurrent.in_crit, Concurrent.active. cbn [l_depth l_skip l_micro l_prog]. destruct sk; auto.
+    destruct p as [|[] p]; cbn; auto.
+  Qed.
+
+  Lemma linv_contrib : forall mx l, linv mx l -> 0 <= contrib l <= Z.of_nat mx.
+  Proof.
+    intros mx [ctx p m d tls sk reg] [Hd H]. unfold Concurrent.contrib. cbn [l_depth l_skip l_micro l_prog] in *.
+    destruct sk; [lia|]. destruct H as [[g Hb] Hm].
+    destruct p as [|o p]; [lia|]. destruct o; try lia.
+    - cbn [Concurrent.bal] in Hb. apply andb_true_iff in Hb. destruct Hb as [Hle _]. apply Nat.leb_le in Hle.
+      destruct (3 <=? m)%nat; lia.
+    - cbn [Concurrent.bal] in Hb. destruct d; [discriminate|]. destruct (2 <=? m)%nat; lia.
+  Qed.
+
+  Definition quiescentc (h0 h o : sigact) (c : Z) : Prop := (c = 0 -> h = h0) /\ (c > 0 -> h = HYara /\ o = h0).
+
+  Definition phasec (h0 h o : sigact) (c : Z) (l : local) : Prop :=
+    match hd_error (l_prog _ _ _ _ _ l), l_micro _ _ _ _ _ l with
+    | Some MEnter, 1%nat => quiescentc h0 h o c
+    | Some MEnter, 2%nat => h = HYara /\ o = h0
+    | Some MEnter, 3%nat => h = HYara /\ o = h0 /\ c > 0
+    | Some MExit, 1%nat => quiescentc h0 h o c
+    | Some MExit, 2%nat => h = HYara /\ o = h0
+    | Some MExit, 3%nat => quiescentc h0 h o c
+    | _, _ => False
+    end.
+
+  Lemma step_class : forall mx h0 t g l, linv mx l -> finished l = false -> blocked g l = false ->
+    g_count _ _ _ _ _ g >= contrib l ->
+    forall r' h' o' c' m', geffect t l g = (r', h', o', c', m') ->
+    c' = g_count _ _ _ _ _ g + contrib (lstep (g_rules _ _ _ _ _ g) (g_count _ _ _ _ _ g) l) - contrib l /\
+    r' = g_rules _ _ _ _ _ g /\
+    ((in_crit l = false /\ in_crit (lstep (g_rules _ _ _ _ _ g) (g_count _ _ _ _ _ g) l) = false /\
+        h' = g_handler _ _ _ _ _ g /\ o' = g_old _ _ _ _ _ g /\ c' = g_count _ _ _ _ _ g /\ m' = g_mutex _ _ _ _ _ g) \/
+     (in_crit l = false /\ in_crit (lstep (g_rules _ _ _ _ _ g) (g_count _ _ _ _ _ g) l) = true /\
+        g_mutex _ _ _ _ _ g = None /\ m' = Some t /\
+        h' = g_handler _ _ _ _ _ g /\ o' = g_old _ _ _ _ _ g /\ c' = g_count _ _ _ _ _ g /\
+        (quiescentc h0 h' o' c' -> phasec h0 h' o' c' (lstep (g_rules _ _ _ _ _ g) (g_count _ _ _ _ _ g) l))) \/
+     (in_crit l = true /\ in_crit (lstep (g_rules _ _ _ _ _ g) (g_count _ _ _ _ _ g) l) = true /\ m' = g_mutex _ _ _ _ _ g /\
+        (phasec h0 (g_handler _ _ _ _ _ g) (g_old _ _ _ _ _ g) (g_count _ _ _ _ _ g) l ->
+         phasec h0 h' o' c' (lstep (g_rules _ _ _ _ _ g) (g_count _ _ _ _ _ g) l))) \/
+     (in_crit l = true /\ in_crit (lstep (g_rules _ _ _ _ _ g) (g_count _ _ _ _ _ g) l) = false /\ m' = None /\
+        h' = g_handler _ _ _ _ _ g /\ o' = g_old _ _ _ _ _ g /\ c' = g_count _ _ _ _ _ g /\
+        (phasec h0 (g_handler _ _ _ _ _ g) (g_old _ _ _ _ _ g) (g_count _ _ _ _ _ g) l -> quiescentc h0 h' o' c'))).
+  Proof.
+    intros mx h0 t g l Hinv Hf Hb Hge r' h' o' c' m' He.
+    pose proof (linv_contrib _ _ Hinv) as Hc0.
+    destruct l as [ctx p m d tls sk reg]. destruct Hinv as [Hd H].
+    unfold Concurrent.finished in Hf. cbn [l_depth l_skip l_micro l_prog] in *.
+    destruct p as [|o p]; [discriminate|].
+    unfold Concurrent.geffect, Concurrent.active in He. unfold Concurrent.blocked, Concurrent.active in Hb.
+    unfold Concurrent.lstep. cbn [l_depth l_skip l_micro l_prog hd_error l_reg] in *.
+    destruct sk.
+    { inversion He; subst. rewrite contrib_pop, in_crit_pop.
+      split; [unfold Concurrent.contrib; cbn [l_depth l_skip]; lia|]. split; [reflexivity|].
+      left. unfold Concurrent.in_crit, Concurrent.active. cbn [l_skip]. auto 10. }
+    destruct H as [[gd Hbal] Hm]. cbn [Concurrent.bal] in Hbal.
+    destruct o; try discriminate.
+    - (* MEnter *)
+      apply andb_true_iff in Hbal. destruct Hbal as [Hle _].
+      destruct m as [|[|[|[|m]]]]; cbn [Nat.ltb Nat.leb] in *.
+      + (* lock *) destruct (g_mutex _ _ _ _ _ g) eqn:Hmx; [discriminate|]. inversion He; subst.
+        split; [unfold Concurrent.contrib; cbn; lia|]. split; [reflexivity|]. right; left.
+        unfold Concurrent.in_crit, Concurrent.active, phasec. cbn. auto 10.
+      + (* test and install *) inversion He; subst. split; [unfold Concurrent.contrib; cbn; lia|]. split; [reflexivity|].
+        right; right; left. unfold Concurrent.in_crit, Concurrent.active, phasec, Concurrent.test_install, quiescentc. cbn.
+        split; auto. split; auto. split; auto. intros [Q0 Q1].
+        destruct (g_count _ _ _ _ _ g =? 0) eqn:E; cbn.
+        * apply Z.eqb_eq in E. split; auto.
+        * apply Z.eqb_neq in E. unfold Concurrent.contrib in Hge, Hc0. cbn in Hge, Hc0. apply Q1. lia.
+      + (* count++ *) inversion He; subst. split; [unfold Concurrent.contrib; cbn; lia|]. split; [reflexivity|].
+        right; right; left. unfold Concurrent.in_crit, Concurrent.active, phasec. cbn.
+        split; auto. split; auto. split; auto. intros [Q0 Q1]. split; auto. split; auto.
+        unfold Concurrent.contrib in Hge, Hc0. cbn in Hge, Hc0. lia.
+      + (* unlock *) inversion He; subst. split; [unfold Concurrent.contrib; cbn; lia|]. split; [reflexivity|].
+        right; right; right. unfold Concurrent.in_crit, Concurrent.active, phasec, quiescentc. cbn.
+        split; auto. split; auto. split; auto. split; auto. split; auto. split; auto.
+        intros [Q0 [Q1 Q2]]. split; [lia | auto].
+      + (* set tls, leave the macro *) inversion He; subst. cbn [l_depth l_skip l_micro l_prog]. rewrite contrib_pop, in_crit_pop.
+        split; [unfold Concurrent.contrib; cbn; lia|]. split; [reflexivity|]. left.
+        unfold Concurrent.in_crit, Concurrent.active. cbn. destruct m; auto 10.
+    - (* MExit *)
+      destruct d as [|d']; [discriminate|].
+      destruct m as [|[|[|[|m]]]]; cbn [Nat.ltb Nat.leb] in *.
+      + destruct (g_mutex _ _ _ _ _ g) eqn:Hmx; [discriminate|]. inversion He; subst.
+        split; [unfold Concurrent.contrib; cbn; lia|]. split; [reflexivity|]. right; left.
+        unfold Concurrent.in_crit, Concurrent.active, phasec. cbn. auto 10.
+      + (* count-- *) inversion He; subst. split; [unfold Concurrent.contrib; cbn; lia|]. split; [reflexivity|].
+        right; right; left. unfold Concurrent.in_crit, Concurrent.active, phasec, quiescentc. cbn.
+        split; auto. split; auto. split; auto. intros [Q0 Q1].
+        unfold Concurrent.contrib in Hge, Hc0. cbn in Hge, Hc0. apply Q1. lia.
+      + (* test and restore *) inversion He; subst. split; [unfold Concurrent.contrib; cbn; lia|]. split; [reflexivity|].
+        right; right; left. unfold Concurrent.in_crit, Concurrent.active, phasec, quiescentc. cbn.
+        split; auto. split; auto. split; auto. intros [Q0 Q1].
+        destruct (g_count _ _ _ _ _ g =? 0) eqn:E.
+        * apply Z.eqb_eq in E. split; [auto | lia].
+        * apply Z.eqb_neq in E. split; [intros; contradiction | auto].
+      + (* unlock *) inversion He; subst. split; [unfold Concurrent.contrib; cbn; lia|]. split; [reflexivity|].
+        right; right; right. unfold Concurrent.in_crit, Concurrent.active, phasec. cbn. auto 10.
+      + inversion He; subst. cbn [l_depth l_skip l_micro l_prog]. rewrite contrib_pop, in_crit_pop.
+        split; [unfold Concurrent.contrib; cbn; lia|]. split; [reflexivity|]. left.
+        unfold Concurrent.in_crit, Concurrent.active. cbn. destruct m; auto 10.
+    - inversion He; subst. rewrite contrib_pop, in_crit_pop. split; [unfold Concurrent.contrib; cbn; lia|]. split; [reflexivity|]. left. unfold Concurrent.in_crit, Concurrent.active. cbn. auto 10.
+    - inversion He; subst. rewrite contrib_pop, in_crit_pop. split; [unfold Concurrent.contrib; cbn; lia|]. split; [reflexivity|]. left. unfold Concurrent.in_crit, Concurrent.active. cbn. auto 10.
+    - inversion He; subst. rewrite contrib_pop, in_crit_pop. split; [unfold Concurrent.contrib; cbn; lia|]. split; [reflexivity|]. left. unfold Concurrent.in_crit, Concurrent.active. cbn. auto 10.
+    - inversion He; subst. rewrite contrib_pop, in_crit_pop. split; [unfold Concurrent.contrib; cbn; lia|]. split; [reflexivity|]. left. unfold Concurrent.in_crit, Concurrent.active. cbn. auto 10.
+    - inversion He; subst. rewrite contrib_pop, in_crit_pop. split; [unfold Concurrent.contrib; cbn; lia|]. split; [reflexivity|]. left. unfold Concurrent.in_crit, Concurrent.active. cbn. auto 10.
+    - inversion He; subst. rewrite contrib_pop, in_crit_pop. split; [unfold Concurrent.contrib; cbn; lia|]. split; [reflexivity|]. left. unfold Concurrent.in_crit, Concurrent.active. cbn. auto 10.
+  Qed.
+
+  Definition quiescent (h0 : sigact) (g : gstate) : Prop :=
+    quiescentc h0 (g_handler _ _ _ _ _ g) (g_old _ _ _ _ _ g) (g_count _ _ _ _ _ g).
+
+  (* the invariant of every reachable state *)
+  Definition ginv (mx : nat) (h0 : sigact) (g : gstate) : Prop :=
+    (forall u l, nth_error (g_locals _ _ _ _ _ g) u = Some l -> linv mx l) /\
+    g_count _ _ _ _ _ g = sumz (g_locals _ _ _ _ _ g) /\
+    match g_mutex _ _ _ _ _ g with
+    | None => (forall u l, nth_error (g_locals _ _ _ _ _ g) u = Some l -> in_crit l = false) /\ quiescent h0 g
+    | Some t => exists l, nth_error (g_locals _ _ _ _ _ g) t = Some l /\ in_crit l = true /\
+                  phasec h0 (g_handler _ _ _ _ _ g) (g_old _ _ _ _ _ g) (g_count _ _ _ _ _ g) l /\
+                  forall u l', u <> t -> nth_error (g_locals _ _ _ _ _ g) u = Some l' -> in_crit l' = false
+    end.
+
+  Lemma sumz_upd : forall ls t l l', nth_error ls t = Some l -> sumz (upd t l' ls) = sumz ls - contrib l + contrib l'.
+  Proof.
+    induction ls as [|x ls IH]; intros t l l' Hn; destruct t; simpl in Hn; try discriminate.
+    - inversion Hn; subst. unfold Concurrent.sumz. simpl. lia.
+    - unfold Concurrent.sumz in *. simpl. rewrite (IH _ _ l' Hn). lia.
+  Qed.
+
+  Lemma sumz_ge : forall ls t l, (forall u x, nth_error ls u = Some x -> 0 <= contrib x) ->
+    nth_error ls t = Some l -> sumz ls >= contrib l /\ sumz ls >= 0.
+  Proof.
+    induction ls as [|x ls IH]; intros t l Hall Hn; destruct t; simpl in Hn; try discriminate.
+    - inversion Hn; subst. unfold Concurrent.sumz. simpl.
+      assert (H0 : fold_right (fun l a => contrib l + a) 0 ls >= 0).
+      { clear - Hall. assert (Hall' : forall u x, nth_error ls u = Some x -> 0 <= contrib x) by (intros u x Hx; apply (Hall (S u) x Hx)).
+        clear Hall. induction ls as [|y ls IH]; simpl; [lia|].
+        pose proof (Hall' O y eq_refl). assert (fold_right (fun l a => contrib l + a) 0 ls >= 0) by (apply IH; intros u x Hx; apply (Hall' (S u) x Hx)). lia. }
+      pose proof (Hall O l eq_refl). lia.
+    - unfold Concurrent.sumz in *. simpl.
+      destruct (IH t l (fun u x Hx => Hall (S u) x Hx) Hn) as [H1 H2].
+      pose proof (Hall O x eq_refl). lia.
+  Qed.
+
+  Lemma ginv_step : forall mx h0 t g, ginv mx h0 g -> ginv mx h0 (gstep t g).
+  Proof.
+    intros mx h0 t g [Hli [Hsum Hmx]].
+    destruct (gstep_cases t g) as [He | [l [Hn [Hf [Hb [Hl Hg]]]]]].
+    { rewrite He. split; auto. }
+    assert (Hinv : linv mx l) by (eapply Hli; eauto).
+    assert (Hnn : forall u x, nth_error (g_locals _ _ _ _ _ g) u = Some x -> 0 <= contrib x).
+    { intros u x Hx. apply (linv_contrib mx x). eapply Hli; eauto. }
+    assert (Hge : g_count _ _ _ _ _ g >= contrib l) by (rewrite Hsum; apply (sumz_ge _ t l Hnn Hn)).
+    destruct (geffect t l g) as [[[[r' h'] o'] c'] m'] eqn:He.
+    inversion Hg as [[Hr' Hh' Ho' Hc' Hm']]. clear Hg.
+    destruct (step_class mx h0 t g l Hinv Hf Hb Hge r' h' o' c' m' He) as [Hcc [Hrr Hk]].
+    set (l' := lstep (g_rules _ _ _ _ _ g) (g_count _ _ _ _ _ g) l) in *.
+    assert (Hnew : nth_error (upd t l' (g_locals _ _ _ _ _ g)) t = Some l') by (eapply nth_upd_same; eauto).
+    unfold ginv, quiescent in *. rewrite Hl, Hh', Ho', Hc', Hm'.
+    split; [|split].
+    - intros u x Hx. destruct (Nat.eq_dec u t) as [->|Hne].
+      + rewrite Hnew in Hx. inversion Hx; subst x. apply linv_step; auto.
+      + rewrite nth_upd_other in Hx by auto. eapply Hli; eauto.
+    - rewrite (sumz_upd _ _ _ l' Hn). lia.
+    - (* who holds the mutex before the step *)
+      assert (Hcrit : in_crit l = true -> g_mutex _ _ _ _ _ g = Some t).
+      { intros Hc. destruct (g_mutex _ _ _ _ _ g) as [t0|] eqn:Hm.
+        - destruct Hmx as [l0 [Hn0 [Hc0 [_ Hoth]]]]. destruct (Nat.eq_dec t t0) as [->|Hne]; auto.
+          rewrite (Hoth _ _ Hne Hn) in Hc. discriminate.
+        - destruct Hmx as [Hnone _]. rewrite (Hnone _ _ Hn) in Hc. discriminate. }
+      destruct Hk as [K | [K | [K | K]]].
+      + destruct K as [Hc1 [Hc2 [-> [-> [-> ->]]]]].
+        destruct (g_mutex _ _ _ _ _ g) as [t0|] eqn:Hm.
+        * destruct Hmx as [l0 [Hn0 [Hc0 [Hph Hoth]]]].
+          assert (Hne : t0 <> t) by (intros ->; rewrite Hn in Hn0; inversion Hn0; subst l0; congruence).
+          exists l0. split; [rewrite nth_upd_other; auto|]. split; auto. split; auto.
+          intros u x Hu Hx. destruct (Nat.eq_dec u t) as [->|Hne'].
+          { rewrite Hnew in Hx. inversion Hx; subst x. auto. }
+          { rewrite nth_upd_other in Hx by auto. eapply Hoth; eauto. }
+        * destruct Hmx as [Hnone Hq]. split; auto.
+          intros u x Hx. destruct (Nat.eq_dec u t) as [->|Hne'].
+          { rewrite Hnew in Hx. inversion Hx; subst x. auto. }
+          { rewrite nth_upd_other in Hx by auto. eapply Hnone; eauto. }
+      + destruct K as [Hc1 [Hc2 [Hm [-> [-> [-> [-> Hph]]]]]]]. rewrite Hm in Hmx. destruct Hmx as [Hnone Hq].
+        exists l'. split; auto. split; auto. split; [apply Hph; exact Hq|].
+        intros u x Hu Hx. rewrite nth_upd_other in Hx by auto. eapply Hnone; eauto.
+      + destruct K as [Hc1 [Hc2 [-> Hph]]]. rewrite (Hcrit Hc1) in *.
+        destruct Hmx as [l0 [Hn0 [Hc0 [Hph0 Hoth]]]]. rewrite Hn in Hn0. inversion Hn0; subst l0.
+        exists l'. split; auto. split; auto. split; [apply Hph; exact Hph0|].
+        intros u x Hu Hx. rewrite nth_upd_other in Hx by auto. eapply Hoth; eauto.
+      + destruct K as [Hc1 [Hc2 [-> [-> [-> [-> Hph]]]]]]. rewrite (Hcrit Hc1) in *.
+        destruct Hmx as [l0 [Hn0 [Hc0 [Hph0 Hoth]]]]. rewrite Hn in Hn0. inversion Hn0; subst l0.
+        split; [|apply Hph; exact Hph0].
+        intros u x Hx. destruct (Nat.eq_dec u t) as [->|Hne'].
+        { rewrite Hnew in Hx. inversion Hx; subst x. auto. }
+        { rewrite nth_upd_other in Hx by auto. eapply Hoth; eauto. }
+  Qed.
+
+  Lemma ginv_run : forall mx h0 sched g, ginv mx h0 g -> ginv mx h0 (run sched g).
+  Proof.
+    induction sched as [|t sched IH]; intros g H; [exact H|].
+    unfold Concurrent.run. simpl. apply IH. apply ginv_step. exact H.
+  Qed.
+
+  Lemma nth_map_init : forall (progs : list (list mop)) u l, nth_error (map init_local progs) u = Some l ->
+    exists p, nth_error progs u = Some p /\ l = init_local p.
+  Proof.
+    induction progs as [|p progs IH]; intros u l H; destruct u; simpl in H; try discriminate.
+    - inversion H; subst. exists p. split; auto.
+    - apply IH in H. exact H.
+  Qed.
+
+  Lemma ginv_init : forall mx r n progs, Forall (fun p => bal mx 0 None p = true) progs ->
+    ginv mx (HApp n) (init r (HApp n) progs).
+  Proof.
+    intros mx r n progs HF. unfold ginv, Concurrent.init. cbn [g_locals g_count g_mutex g_handler g_old].
+    split; [|split; [|split]].
+    - intros u l Hn. destruct (nth_map_init _ _ _ Hn) as [p [Hp ->]].
+      assert (Hb : bal mx 0 None p = true) by (eapply (Forall_nth _ _ _ _ _ HF); eauto).
+      unfold linv, Concurrent.init_local. cbn [l_depth l_skip l_micro l_prog]. split; [lia|]. split; eauto.
+    - clear HF. induction progs as [|p progs IH]; [reflexivity|]. unfold Concurrent.sumz in *. simpl.
+      unfold Concurrent.init_local at 1. rewrite contrib_pop. simpl. exact IH.
+    - intros u l Hn. destruct (nth_map_init _ _ _ Hn) as [p [Hp ->]]. apply in_crit_pop.
+    - unfold quiescent, quiescentc. cbn [g_count g_handler g_old]. split; [auto | lia].
+  Qed.
+
+  Lemma linv_finished : forall mx l, linv mx l -> finished l = true -> contrib l = 0 /\ in_crit l = false.
+  Proof.
+    intros mx [ctx p m d tls sk reg] [Hd H] Hf. unfold Concurrent.finished in Hf. cbn [l_depth l_skip l_micro l_prog] in *.
+    destruct p; [|discriminate]. unfold Concurrent.contrib, Concurrent.in_crit, Concurrent.active. cbn [l_depth l_skip l_micro l_prog hd_error].
+    destruct sk.
+    - destruct H as [_ [d' Hb]]. discriminate.
+    - destruct H as [[g Hb] _]. cbn in Hb. destruct g; [discriminate|]. apply Nat.eqb_eq in Hb. subst d. split; [reflexivity | reflexivity].
+  Qed.
+
+  Lemma sumz_zero : forall ls, (forall u x, nth_error ls u = Some x -> contrib x = 0) -> sumz ls = 0.
+  Proof.
+    induction ls as [|x ls IH]; intros H; [reflexivity|]. unfold Concurrent.sumz in *. simpl.
+    rewrite (H O x eq_refl). rewrite IH; [reflexivity|]. intros u y Hy. apply (H (S u) y Hy).
+  Qed.
+
+  Lemma forallb_nth : forall (T : Type) (f : T -> bool) ls u x, forallb f ls = true -> nth_error ls u = Some x -> f x = true.
+  Proof. intros T f ls u x H Hn. rewrite forallb_forall in H. apply H. eapply nth_error_In; eauto. Qed.
+
+  Lemma sigact_eqb_yara : forall h, sigact_eqb h HYara = true <-> h = HYara.
+  Proof. intros [n|]; simpl; split; intros; auto; discriminate. Qed.
+
+  (* what the invariant says in the terms of the property *)
+  Theorem handler_protocol_proof : forall mx r n progs sched,
+    Forall (fun p => bal mx 0 None p = true) progs ->
+    let g := run sched (init r (HApp n) progs) in
+    (* the counter is the number of open try sections, thread by thread *)
+    g_count _ _ _ _ _ g = sumz (g_locals _ _ _ _ _ g) /\
+    (forall u l, nth_error (g_locals _ _ _ _ _ g) u = Some l -> 0 <= contrib l <= Z.of_nat mx) /\
+    (* at most one thread is inside the critical section, and it is the owner of the mutex *)
+    (forall u l, nth_error (g_locals _ _ _ _ _ g) u = Some l -> in_crit l = true -> g_mutex _ _ _ _ _ g = Some u) /\
+    (* whenever nobody is in the middle of the critical section: installed <-> counter > 0, and otherwise the
+       original handler is in place; while installed, the saved handler is the original one *)
+    (g_mutex _ _ _ _ _ g = None ->
+       (installed _ _ _ _ _ g = true <-> g_count _ _ _ _ _ g > 0) /\
+       (g_count _ _ _ _ _ g = 0 -> g_handler _ _ _ _ _ g = HApp n) /\
+       (g_count _ _ _ _ _ g > 0 -> g_old _ _ _ _ _ g = HApp n)) /\
+    (* at the end the original handler is back, the counter is 0 and the mutex is free *)
+    (all_finished _ _ _ _ _ g = true ->
+       g_handler _ _ _ _ _ g = HApp n /\ g_count _ _ _ _ _ g = 0 /\ g_mutex _ _ _ _ _ g = None).
+  Proof.
+    intros mx r n progs sched HF g.
+    assert (HI : ginv mx (HApp n) g) by (apply ginv_run; apply ginv_init; exact HF).
+    destruct HI as [Hli [Hsum Hmx]].
+    assert (Hnn : forall u l, nth_error (g_locals _ _ _ _ _ g) u = Some l -> 0 <= contrib l <= Z.of_nat mx).
+    { intros u l Hn. apply linv_contrib. eapply Hli; eauto. }
+    assert (Hge0 : g_count _ _ _ _ _ g >= 0).
+    { rewrite Hsum. destruct (g_locals _ _ _ _ _ g) as [|x ls] eqn:E; [unfold Concurrent.sumz; simpl; lia|].
+      rewrite <- E in *. apply (sumz_ge (g_locals _ _ _ _ _ g) O x); [intros u y Hy; apply (Hnn u y Hy)|rewrite E; reflexivity]. }
+    split; [exact Hsum|]. split; [exact Hnn|]. split; [|split].
+    - intros u l Hn Hc. destruct (g_mutex _ _ _ _ _ g) as [t0|].
+      + destruct Hmx as [l0 [Hn0 [Hc0 [_ Hoth]]]]. destruct (Nat.eq_dec u t0) as [->|Hne]; auto.
+        rewrite (Hoth _ _ Hne Hn) in Hc. discriminate.
+      + destruct Hmx as [Hnone _]. rewrite (Hnone _ _ Hn) in Hc. discriminate.
+    - intros Hm. rewrite Hm in Hmx. destruct Hmx as [_ [Q0 Q1]].
+      split; [|split].
+      + unfold Concurrent.installed. rewrite sigact_eqb_yara. split.
+        * intros Hy. destruct (Z.eq_dec (g_count _ _ _ _ _ g) 0) as [E|E]; [|lia]. rewrite (Q0 E) in Hy. discriminate.
+        * intros Hc. apply Q1; auto.
+      + exact Q0.
+      + intros Hc. apply Q1; auto.
+    - intros Hall. unfold Concurrent.all_finished in Hall.
+      assert (Hz : forall u x, nth_error (g_locals _ _ _ _ _ g) u = Some x -> contrib x = 0 /\ in_crit x = false).
+      { intros u x Hx. apply (linv_finished mx); [eapply Hli; eauto|]. eapply forallb_nth; eauto. }
+      assert (Hc0 : g_count _ _ _ _ _ g = 0) by (rewrite Hsum; apply sumz_zero; intros u x Hx; apply (Hz u x Hx)).
+      destruct (g_mutex _ _ _ _ _ g) as [t0|].
+      + destruct Hmx as [l0 [Hn0 [Hcr _]]]. destruct (Hz _ _ Hn0) as [_ Hcf]. congruence.
+      + destruct Hmx as [_ [Q0 _]]. auto.
+  Qed.
+
+  (* with no nesting (mx = 1: what libyara's own calls do) "open sections" is "threads inside" *)
+  Lemma sumz_flat : forall ls, (forall u x, nth_error ls u = Some x -> 0 <= contrib x <= 1) ->
+    sumz ls = Z.of_nat (length (filter (inside R C A X V) ls)).
+  Proof.
+    induction ls as [|x ls IH]; intros H; [reflexivity|]. unfold Concurrent.sumz in *. simpl.
+    rewrite IH by (intros u y Hy; apply (H (S u) y Hy)).
+    pose proof (H O x eq_refl) as Hx. unfold Concurrent.inside.
+    destruct (0 <? contrib x) eqn:E; [apply Z.ltb_lt in E | apply Z.ltb_ge in E]; simpl length; lia.
+  Qed.
+
+  Theorem handler_count_is_threads_inside_proof : forall r n progs sched,
+    Forall (fun p => bal 1 0 None p = true) progs ->
+    let g := run sched (init r (HApp n) progs) in
+    g_count _ _ _ _ _ g = Z.of_nat (length (filter (inside R C A X V) (g_locals _ _ _ _ _ g))).
+  Proof.
+    intros r n progs sched HF g.
+    destruct (handler_protocol_proof 1 r n progs sched HF) as [Hsum [Hnn _]]. fold g in Hsum, Hnn.
+    rewrite Hsum. apply sumz_flat. intros u x Hx. pose proof (Hnn u x Hx). lia.
+  Qed.
+
+  (* ====================================================================================== Part C *)
+  Theorem externals_private_proof : forall t (g : gstate) ctx x v p m d tls reg,
+    nth_error (g_locals _ _ _ _ _ g) t = Some (mkLocal _ _ _ _ _ ctx (MDefine x v :: p) m d tls false reg) ->
+    let g' := gstep t g in
+    g_rules _ _ _ _ _ g' = g_rules _ _ _ _ _ g /\ g_handler _ _ _ _ _ g' = g_handler _ _ _ _ _ g /\
+    g_old _ _ _ _ _ g' = g_old _ _ _ _ _ g /\ g_count _ _ _ _ _ g' = g_count _ _ _ _ _ g /\
+    g_mutex _ _ _ _ _ g' = g_mutex _ _ _ _ _ g /\
+    (forall u, u <> t -> nth_error (g_locals _ _ _ _ _ g') u = nth_error (g_locals _ _ _ _ _ g) u) /\
+    nth_error (g_locals _ _ _ _ _ g') t = Some (mkLocal _ _ _ _ _ (option_map (define x v) ctx) p 0 d tls false reg).
+  Proof.
+    intros t g ctx x v p m d tls reg Hn g'. subst g'. unfold Concurrent.gstep. rewrite Hn.
+    unfold Concurrent.finished, Concurrent.blocked, Concurrent.geffect, Concurrent.active, Concurrent.lstep.
+    cbn [l_depth l_skip l_micro l_prog l_ctx l_tls l_reg hd_error g_rules g_handler g_old g_count g_mutex g_locals].
+    repeat split; auto.
+    - intros u Hu. apply nth_upd_other; auto.
+    - eapply nth_upd_same; eauto.
+  Qed.
+
+  (* the shape of libyara's own scan calls satisfies the discipline (so the theorems apply to them) *)
+  Lemma scan_call_bal : forall ok blocks exec report,
+    bal 1 0 None (scan_call R C A X V ok blocks exec report) = true.
+  Proof.
+    intros. unfold Concurrent.scan_call. cbn [app Concurrent.bal Nat.leb andb].
+    induction blocks as [|b bs IH]; [reflexivity|]. cbn [map app Concurrent.bal]. exact IH.
+  Qed.
+
+  Lemma scan_call_notry_bal : forall ok blocks exec report,
+    bal 1 0 None (scan_call_notry R C A X V ok blocks exec report) = true.
+  Proof.
+    intros. unfold Concurrent.scan_call_notry.
+    induction blocks as [|b bs IH]; [reflexivity|]. cbn [map app Concurrent.bal]. exact IH.
+  Qed.
 End P.
+
+(* ================================================================================== concrete instance: witnesses *)
+Definition ex_rules : irules := [(5, false); (12, false)].
+(* thread 0: scanner with external 10, two blocks; thread 1: external -5, the second block ends in an error (callback
+   abort / timeout): the second try section and the report are skipped; thread 2: SCAN_FLAGS_NO_TRYCATCH *)
+Definition ex_progs : list (list imop) :=
+  [ [MCreate; MDefine tt 10] ++ i_scan_call [3; 7] 1 2;
+    [MCreate; MDefine tt (-5)] ++ i_scan_call [3; -1; 7] 1 2;
+    [MCreate] ++ i_scan_call_notry [4] 1 2 ].
+Definition ex_g0 : igstate := i_init ex_rules (HApp 0) ex_progs.
+Fixpoint round_robin (n : nat) : list nat := match n with O => [] | S n' => [0; 1; 2; 1; 0]%nat ++ round_robin n' end.
+Definition ex_sched : list nat := round_robin 40.
+
+Definition ex_ctx (g : igstate) (t : nat) : option ictx :=
+  match nth_error (g_locals _ _ _ _ _ g) t with Some l => l_ctx _ _ _ _ _ l | None => None end.
+
+Lemma ex_premises :
+  Forall (fun p => i_bal 1 0 None p = true) ex_progs /\
+  all_finished _ _ _ _ _ (i_run ex_sched ex_g0) = true /\
+  ex_ctx (i_run ex_sched ex_g0) 0 = Some (mkICtx 10 false [1; 1; 1; 1; 1; 0; 1; 1]) /\
+  ex_ctx (i_run ex_sched ex_g0) 1 = Some (mkICtx (-5) true [0; 0]) /\
+  ex_ctx (i_run ex_sched ex_g0) 2 = Some (mkICtx 0 false [0; 0; 0; 0; 0; 0]) /\
+  (forall t, (t < 3)%nat ->
+     ex_ctx (i_run ex_sched ex_g0) t = ex_ctx (i_run (repeat t 200) ex_g0) t).
+Proof.
+  split; [repeat constructor|]. split; [vm_compute; reflexivity|]. split; [vm_compute; reflexivity|].
+  split; [vm_compute; reflexivity|]. split; [vm_compute; reflexivity|].
+  intros t Ht. destruct t as [|[|[|t]]]; try lia; vm_compute; reflexivity.
+Qed.
+
+(* a prefix of that schedule at which two threads are inside a try section and one is not *)
+Lemma ex_prefix :
+  let g := i_run (firstn 24 ex_sched) ex_g0 in
+  g_count _ _ _ _ _ g = 2 /\ installed _ _ _ _ _ g = true /\ g_mutex _ _ _ _ _ g = None /\
+  map i_contrib (g_locals _ _ _ _ _ g) = [1; 1; 0].
+Proof. vm_compute. repeat split; reflexivity. Qed.
+
+(* 1. a write to the shared rules (yr_rule_disable) while another thread scans: the result depends on the schedule *)
+Definition w_write_progs : list (list imop) := [ [MCreate; MScan 6]; [MRulesWrite i_disable0] ].
+Lemma w_rules_write_interferes :
+  all_finished _ _ _ _ _ (i_run [0; 0; 1]%nat (i_init ex_rules (HApp 0) w_write_progs)) = true /\
+  all_finished _ _ _ _ _ (i_run [1; 0; 0]%nat (i_init ex_rules (HApp 0) w_write_progs)) = true /\
+  ex_ctx (i_run [0; 0; 1]%nat (i_init ex_rules (HApp 0) w_write_progs)) 0 = Some (mkICtx 0 false [1; 0]) /\
+  ex_ctx (i_run [1; 0; 0]%nat (i_init ex_rules (HApp 0) w_write_progs)) 0 = Some (mkICtx 0 false [0]).
+Proof. vm_compute. repeat split; reflexivity. Qed.
+
+(* 2. exception_handler_usecount++ outside the mutex: both threads see the counter at 0 inside their critical sections,
+      so the second sigaction saves libyara's own handler as the "old" one (the original is lost); a lost update
+      leaves the counter at 1 with two threads inside; when the first one leaves, the counter is 0 while the other is
+      still inside; at the end the counter is -1, the original handler is not restored and no later scan would
+      install the handler again *)
+Definition w_racy_progs : list (list imop) := [ [MEnterRacy; MScan 1; MExit]; [MEnterRacy; MScan 1; MExit] ].
+Definition w_racy_sched1 : list nat := [0; 0; 0; 1; 1; 1; 0; 1; 0; 1; 0; 1]%nat.
+Definition w_racy_sched2 : list nat := w_racy_sched1 ++ [0; 0; 0; 0; 0; 0]%nat.
+Definition w_racy_sched3 : list nat := w_racy_sched2 ++ [1; 1; 1; 1; 1; 1]%nat.
+Lemma w_racy_enter_breaks_protocol :
+  let g0 := i_init ex_rules (HApp 0) w_racy_progs in
+  (g_count _ _ _ _ _ (i_run w_racy_sched1 g0) = 1 /\ g_old _ _ _ _ _ (i_run w_racy_sched1 g0) = HYara /\
+   map (l_depth _ _ _ _ _) (g_locals _ _ _ _ _ (i_run w_racy_sched1 g0)) = [1; 1]%nat) /\
+  (g_count _ _ _ _ _ (i_run w_racy_sched2 g0) = 0 /\ g_mutex _ _ _ _ _ (i_run w_racy_sched2 g0) = None /\
+   map (l_depth _ _ _ _ _) (g_locals _ _ _ _ _ (i_run w_racy_sched2 g0)) = [0; 1]%nat) /\
+  (all_finished _ _ _ _ _ (i_run w_racy_sched3 g0) = true /\ g_count _ _ _ _ _ (i_run w_racy_sched3 g0) = -1 /\
+   g_handler _ _ _ _ _ (i_run w_racy_sched3 g0) = HYara).
+Proof. vm_compute. repeat split; reflexivity. Qed.
+
+(* 3. the handler is process wide: a handler the application installs while a scan is in flight is overwritten
+      when the last try section is left *)
+Definition w_app_progs : list (list imop) := [ [MEnter; MExit]; [MSigaction 7] ].
+Lemma w_application_handler_lost :
+  let g0 := i_init ex_rules (HApp 0) w_app_progs in
+  g_handler _ _ _ _ _ (i_run [0; 0; 0; 0; 0; 1; 0; 0; 0; 0; 0]%nat g0) = HApp 0 /\
+  g_handler _ _ _ _ _ (i_run [1; 0; 0; 0; 0; 0; 0; 0; 0; 0; 0]%nat g0) = HApp 7.
+Proof. vm_compute. split; reflexivity. Qed.
+
+(* 4. a YR_TRYCATCH nested in another one on the same thread (a scan started from a callback that runs inside
+      yr_execute_code: CALLBACK_MSG_IMPORT_MODULE, CALLBACK_MSG_CONSOLE_LOG): leaving the inner section sets the TLS
+      slot to NULL, so the rest of the outer section runs with the handler installed but without its jump buffer *)
+Definition w_nested_progs : list (list imop) := [ [MEnter; MEnter; MExit; MScan 1; MExit] ].
+Lemma w_nested_try_loses_jump_buffer :
+  let g := i_run (repeat 0%nat 15) (i_init ex_rules (HApp 0) w_nested_progs) in
+  map (l_depth _ _ _ _ _) (g_locals _ _ _ _ _ g) = [1%nat] /\ map (l_tls _ _ _ _ _) (g_locals _ _ _ _ _ g) = [None] /\
+  installed _ _ _ _ _ g = true /\ i_bal 2 0 None (hd [] w_nested_progs) = true.
+Proof. vm_compute. repeat split; reflexivity. Qed.
+
+Section TLS.
+  Variables (R C A X V : Type).
+  Variable scan_step : R -> A -> C -> C.
+  Variable create : R -> C.
+  Variable define : X -> V -> C -> C.
+  Notation local := (local R C A X V).
+  Notation gstate := (gstate R C A X V).
+  Notation lstep := (lstep R C A X V scan_step create define).
+  Notation gstep := (gstep R C A X V scan_step create define).
+  Notation run := (run R C A X V scan_step create define).
+
+  (* yr_trycatch_trampoline_tls of the thread points to the jumpinfo of the section it is in, and is NULL outside *)
+  Definition tlsinv (l : local) : Prop :=
+    l_tls _ _ _ _ _ l = match l_depth _ _ _ _ _ l with O => None | S d => Some (S d) end.
+
+  Lemma tls_step : forall r c l, linv R C A X V 1 l -> tlsinv l -> tlsinv (lstep r c l).
+  Proof.
+    intros r c [ctx p m d tls sk reg] [Hd H] Ht. unfold tlsinv, Concurrent.lstep in *. cbn [l_depth l_skip l_micro l_prog l_tls] in *.
+    destruct p as [|o p]; [exact Ht|]. destruct sk; [exact Ht|].
+    destruct H as [[g Hb] _]. cbn [Concurrent.bal] in Hb.
+    destruct o; try discriminate; cbn [l_depth l_tls]; try exact Ht.
+    - destruct (m <? 4)%nat; cbn [l_depth l_tls]; [exact Ht | reflexivity].
+    - destruct (m <? 4)%nat; cbn [l_depth l_tls]; [exact Ht|]. destruct d as [|[|d]]; try reflexivity. lia.
+  Qed.
+
+  Theorem tls_points_to_own_frame_proof : forall r n progs sched,
+    Forall (fun p => bal R C A X V 1 0 None p = true) progs ->
+    forall u l, nth_error (g_locals _ _ _ _ _ (run sched (init R C A X V r (HApp n) progs))) u = Some l -> tlsinv l.
+  Proof.
+    intros r n progs sched HF.
+    assert (G : forall sched g, ginv R C A X V 1 (HApp n) g ->
+                (forall u l, nth_error (g_locals _ _ _ _ _ g) u = Some l -> tlsinv l) ->
+                forall u l, nth_error (g_locals _ _ _ _ _ (run sched g)) u = Some l -> tlsinv l).
+    { induction sched0 as [|t s IH]; intros g Hg Ht; [exact Ht|].
+      unfold Concurrent.run. simpl. apply IH; [apply ginv_step; exact Hg|].
+      intros u l Hn.
+      destruct (gstep_cases R C A X V scan_step create define t g) as [He | [l0 [Hn0 [_ [_ [Hl _]]]]]].
+      - rewrite He in Hn. eapply Ht; eauto.
+      - rewrite Hl in Hn. destruct (Nat.eq_dec u t) as [->|Hne].
+        + rewrite (nth_upd_same _ _ _ _ _ Hn0) in Hn. inversion Hn; subst l.
+          apply tls_step; [destruct Hg as [Hli _]; eapply Hli; eauto | eapply Ht; eauto].
+        + rewrite nth_upd_other in Hn by auto. eapply Ht; eauto. }
+    apply G; [apply ginv_init; exact HF|].
+    intros u l Hn. unfold Concurrent.init in Hn. cbn [g_locals] in Hn.
+    destruct (nth_map_init R C A X V _ _ _ Hn) as [p [_ ->]]. reflexivity.
+  Qed.
+End TLS.
+
+Lemma scan_calls_bal : forall (R C A X V : Type) (ok : R -> option C -> bool) (blocks : list A) (exec report : A),
+  bal R C A X V 1 0 None (scan_call R C A X V ok blocks exec report) = true /\
+  bal R C A X V 1 0 None (scan_call_notry R C A X V ok blocks exec report) = true.
+Proof. intros. split; [apply scan_call_bal | apply scan_call_notry_bal]. Qed.
